@@ -361,6 +361,7 @@ fn run_sync(ops: &[Value], port: u16, timeout: Duration) -> (Vec<Value>, Vec<u64
                 }
             }
             "transport" => {
+                let timeout = match op["timeout"].as_str() { Some("max") => Duration::MAX, Some("u64s") => Duration::from_secs(u64::MAX), Some("i64s") => Duration::from_secs(i64::MAX as u64), Some("century") => Duration::from_secs(3_155_760_000), _ => timeout };
                 let mut b = SmtpTransport::builder_dangerous("127.0.0.1").port(port).timeout(Some(timeout))
                     .hello_name(ClientId::Domain(s_of(&op["hello"])));
                 if !op["user"].is_null() {
@@ -480,6 +481,7 @@ async fn run_tokio(ops: &[Value], port: u16, timeout: Duration) -> (Vec<Value>, 
                 }
             }
             "transport" => {
+                let timeout = match op["timeout"].as_str() { Some("max") => Duration::MAX, Some("u64s") => Duration::from_secs(u64::MAX), Some("i64s") => Duration::from_secs(i64::MAX as u64), Some("century") => Duration::from_secs(3_155_760_000), _ => timeout };
                 let mut b = AsyncSmtpTransport::<Tokio1Executor>::builder_dangerous("127.0.0.1").port(port).timeout(Some(timeout))
                     .hello_name(ClientId::Domain(s_of(&op["hello"])));
                 if !op["user"].is_null() {
